@@ -66,7 +66,8 @@ def mc_module(name: str, requests, boards, scripts, fault=None) -> Path:
 
 
 def table_cfg(ntricks: int, sync='barrier', close=True, interrupts=False,
-              invs=(), props=(), deadlock=True, join='wait', end='after-close') -> str:
+              invs=(), props=(), deadlock=True, join='wait', end='after-close',
+              relay='main') -> str:
     txt = tlc.cfg_text(specification='Spec',
                        constants={'Requests': '<- MCRequests', 'Boards': '<- MCBoards',
                                   'Script': '<- MCScript', 'NTricksM': str(ntricks),
@@ -76,6 +77,7 @@ def table_cfg(ntricks: int, sync='barrier', close=True, interrupts=False,
                                   'Interrupts': 'TRUE' if interrupts else 'FALSE',
                                   'JoinImpl': f'"{join}"',
                                   'EndAnnounce': f'"{end}"',
+                                  'RelayImpl': f'"{relay}"',
                                   'defaultInitValue': '0'},
                        invariants=invs, properties=props, deadlock=deadlock)
     for k in ('Requests', 'Boards', 'Script', 'Fault'):
@@ -93,9 +95,9 @@ def run_model(chk: Check, what: str, requests, boards, scripts, ntricks, *, faul
               sync='barrier', close=True, interrupts=False, invs=SAFETY,
               props=('TableOnlyGrows',), simulate: Optional[str] = None, depth=None,
               expect: Optional[str] = None, deadlock=True, workers=12, timeout=3000, join='wait',
-              end='after-close'):
+              end='after-close', relay='main'):
     d = mc_module('MCTable', requests, boards, scripts, fault)
-    cfg = table_cfg(ntricks, sync, close, interrupts, invs, props, deadlock, join, end)
+    cfg = table_cfg(ntricks, sync, close, interrupts, invs, props, deadlock, join, end, relay)
     kw: Dict[str, Any] = {}
     if simulate:
         kw = dict(simulate=simulate, depth=depth or 800, seed=seed() + 11)
@@ -158,6 +160,14 @@ def design(chk: Check, pid: str, tier: str) -> None:
                   GOOD, [b0], [script_for(*b0, po, 1, r)], 1, sync='flags',
                   invs=['BarrierShape'], props=[], simulate='num=200000', depth=500,
                   expect='deadlock', workers=8)
+        # every queue of the table manager has ONE producer (the main thread for the
+        # queues to the seats, the seat's thread for the queue to main): with a second
+        # producer the order of the items - and with it the session - depends on the
+        # schedule
+        run_model(chk, 'Table regression: the acting seat passes its call on to the other seats itself '
+                       '(two producers on one queue): some schedule breaks the session',
+                  GOOD, [b0], [script_for(*b0, po, 1, r)], 1, relay='seat',
+                  invs=['Completed', 'SentPrefix'], props=[], expect='two-producers', workers=8)
         if not quick:
             b1 = small_board(r, 1, 1, 2)
             run_model(chk, 'Table: 4 seats, 1 board played (1C P P P, one trick), every interleaving',
